@@ -149,7 +149,7 @@ class C20(HistoryCampaign):
         "drivers": ["Canonical", "HamiltonianCanonical", "Isobaric", "Isotension", "GrandCanonical", "GrandCanonical"],
         "calc_styles": ["caching", "stateless"],
         "scales": ["moderate"], "constraints": 0.0, "arrays": 0.2, "composites": 0.2, "extended": 0.0,
-        "p_force": [0.3, 0.6, 0.9], "p_veto": [0.0, 0.1], "preselect": 0.0, "steps_max": 10,
+        "p_force": [0.3, 0.6, 0.9], "p_veto": [0.0, 0.1], "preselect": 0.0, "steps_max": 10, "wrap_exch": 0.35,
     }
     rule = ("one evaluation = one generated deployment holding bare protocol-only moves and criteria (results drawn "
             "from True/False/1/0/'x'/''/None/[0]/[]/2.5/0.0) alone or next to shipped moves in each of the six Monte "
